@@ -193,6 +193,17 @@ impl Names {
         self.current_scope_name = ScopeName::Global;
     }
 
+    /// Checks if the given name, seen inside a subprogram, is not a variable of the
+    /// subprogram but a SHARED variable of the module (`REDIM` of such an array inside
+    /// a subprogram re-dimensions the module's array).
+    pub fn is_only_shared_in_parent(&self, bare_name: &BareName) -> bool {
+        self.names().collect_var_info(bare_name, false).is_empty()
+            && self
+                .global_names()
+                .map(|global_names| !global_names.collect_var_info(bare_name, true).is_empty())
+                .unwrap_or(false)
+    }
+
     pub fn find_name_or_shared_in_parent(
         &self,
         bare_name: &BareName,
